@@ -127,7 +127,8 @@ class UStruct(Item):
 
 class UEnum(Item):
     PREFIX = "W"; sized = False
-    def _init(self, tag, variants, dflt=None, force_portable=False, discs=None):
+    def _init(self, tag, variants, dflt=None, force_portable=False, discs=None, sys=False):
+        self.sys = sys
         for form, fs in variants:
             assert all(f.sized for f in fs[:-1])
         self.tag = tag; self.variants = variants; self.dflt = dflt; self.forced = force_portable
@@ -139,7 +140,7 @@ class UEnum(Item):
         self.portable = (tag == "u8" or force_portable) and all(f.portable for _, fs in variants for f in fs)
     def spec(self):
         vs = ["%s(%s)" % (form[0], ",".join(f.spec() for f in fs)) for form, fs in self.variants]
-        return "uenum(%s;%s;d%s%s%s)" % (self.tag, "|".join(vs), self.dflt, ";declared_portable" if self.forced else "", "" if self.discs is None else ";discriminants_ignored=" + ".".join(str(x) for x in self.discs))
+        return "uenum(%s;%s;d%s%s%s)" % (self.tag, "|".join(vs), self.dflt, ";declared_portable" if self.forced else "", "" if self.discs is None else ";discriminants_ignored=" + ".".join(str(x) for x in self.discs)) + (";sys" if self.sys else "")
 
 # ---------------------------------------------------------------- emission
 def vname(i): return "V%d" % i
@@ -571,6 +572,10 @@ def catalog(thorough):
     if thorough:
         for combo in itertools.product(KINDS, repeat=3):
             add(get(UStruct, list(combo) + [V88], "named", True))
+    # the same pairs as the fields of an enum variant (payload placed behind a tag of every width)
+    for tag in (["u8", "u16", "u32"] if thorough else ["u8"]):
+        for combo in itertools.product(KINDS, repeat=2):
+            add(get(UEnum, tag, [("unit", []), ("tuple", list(combo) + [V88]), ("tuple", [combo[1]])], 0, False, None, True))
     # #[default] on a non-first variant behind a doc comment, the first variant being a unit variant as well
     add(get(UEnum, "u8", [("unit", []), ("tuple", [U16]), ("unit", [])], 2)); add(get(UEnum, "u16", [("unit", []), ("tuple", [V88]), ("tuple", [U32]), ("unit", [])], 3))
     # a zero-sized but ALIGNED field in the middle of a field list (every statement of the layout rule must pad for it)
